@@ -90,6 +90,8 @@ func newLifeClient(pingOff ...bool) *lifeClient {
 		switch {
 		case strings.HasSuffix(last, " line 10"):
 			lc.signal("line10")
+		case last == "boom":
+			panic("a foreground handler panics (RecoverFunc is installed): later events must still be delivered")
 		case last == "block":
 			lc.signal("block")
 			time.Sleep(40 * time.Millisecond)
@@ -333,6 +335,9 @@ func (lc *lifeClient) runLifeConn(idx int, term, place, peer string, r *RNG) *li
 			}
 			<-fired
 		case "handler":
+			if r.Chance(40) {
+				sendRec(":x!u@h PRIVMSG me :boom")
+			}
 			for i := 0; i < 5; i++ {
 				sendRec(fmt.Sprintf(":x!u@h PRIVMSG me :%s pre %d", tag, i))
 			}
@@ -634,6 +639,8 @@ func firstDiffIdx(a, b []string) int {
 	return len(b)
 }
 
+var lifeStuck int
+
 func init() {
 	props["C07"] = runC07
 	props["lifeprobe"] = func(c *Ctx) {
@@ -668,6 +675,9 @@ func init() {
 	}
 	runners["life"] = func(c *Ctx, in map[string]string) {
 		hin := hexIn(in)
+		if lifeStuck >= 2 {
+			return // Connect has already failed to return twice (reported): every further scenario would cost another minute
+		}
 		terms := strings.Split(in["terms"], ",")
 		places := strings.Split(in["places"], ",")
 		peers := strings.Split(in["peers"], ",")
@@ -682,6 +692,7 @@ func init() {
 			}
 			c.R.Count(fmt.Sprintf("%s/%s/%s/%d", terms[i], places[i], peers[i], i), true, "term="+terms[i], "place="+places[i], "ret="+strings.SplitN(o.Ret, ":", 2)[0])
 			if o.Ret == "timeout" {
+				lifeStuck++
 				return
 			}
 			prev = o
@@ -720,6 +731,9 @@ func runC07(c *Ctx) {
 		c.run("life", map[string]string{"pingoff": "1", "terms": t + "," + terms[c.Rng.Intn(4)] + ",close", "places": places[c.Rng.Intn(4)] + ",handler,burst", "peers": "passive,passive,passive"})
 		n++
 	}
+	// a session that follows a FAILED transport upgrade: Close() ends it for good (Connect returns nil, no further dial)
+	c.run("stsfailedthenclose", map[string]string{"scenario": "ack, refused redial, plain session, Close"})
+	n++
 	// several events and the ERROR queued behind a busy foreground handler, more than once per run
 	for i := 0; i < 4; i++ {
 		c.run("life", map[string]string{"terms": "error,error,error", "places": "handler,handler,handler", "peers": "passive,passive,passive"})
